@@ -37,21 +37,14 @@ pub unsafe fn pubkey_parse_model(
     PARSE_CALLS += 1;
     // applicability of the model: the callers under verification only ever pass 33 bytes
     assert!(in_len == 33, "ffi model: only 33-byte compressed keys are modelled");
+    // (loop-free copies: harnesses that use this model run under small global unwind bounds)
     let mut b = [0u8; 33];
-    let mut i = 0;
-    while i < 33 {
-        b[i] = *input.add(i);
-        i += 1;
-    }
+    core::ptr::copy_nonoverlapping(input, b.as_mut_ptr(), 33);
     if !acc(&b) {
         return 0;
     }
     let mut repr = [0u8; 64];
-    let mut i = 0;
-    while i < 33 {
-        repr[i] = b[i];
-        i += 1;
-    }
+    repr[..33].copy_from_slice(&b);
     *pk = sffi::PublicKey::from_array_unchecked(repr);
     1
 }
@@ -65,11 +58,7 @@ pub unsafe fn pubkey_serialize_model(
 ) -> c_int {
     assert!(compressed == sffi::SECP256K1_SER_COMPRESSED && *out_len >= 33, "ffi model: compressed form only");
     let repr = (*pk).underlying_bytes();
-    let mut i = 0;
-    while i < 33 {
-        *output.add(i) = repr[i];
-        i += 1;
-    }
+    core::ptr::copy_nonoverlapping(repr.as_ptr(), output, 33);
     *out_len = 33;
     1
 }
